@@ -289,6 +289,7 @@ Proof.
     pose proof (expire_colls_views_inv x (map fst (s_colls s)) s [] (fun c H => H) Hinv) as H.
     destruct (expire_colls s x (map fst (s_colls s)) []) as [s' evs]. exact H.
   - cbn [sstep]. destruct (coll_id s coll); exact Hinv.
+  - cbn [sstep]. destruct (coll_id s coll); exact Hinv.
   - (* failed attempts: the clock only moves forward *)
     pose proof Hinv as [Ht Hs Hv Hc Hw].
     apply (views_inv_same_data s); try reflexivity; [apply (sstep_tables_ok s x (SDraw coll key op b) Ht) | apply (sstep_ok s x (SDraw coll key op b) I Hs) | | exact Hv | exact Hinv].
